@@ -115,11 +115,13 @@ def check(ctx):
                                   "self.workingDirectory is assigned something other than [] or a toSegments() result: later relative paths start outside "
                                   "the normalised tree")
                     elif isinstance(t, ast.Subscript) and src(t.value) == "self.workingDirectory":
+                        nwd += 1
                         ctx.violation("protocol/working-directory-normalised", ctx.construct(f"{QF}.FTP.{mname}", n), "self.workingDirectory is modified in place")
             if isinstance(n, ast.Call) and isinstance(n.func, ast.Attribute) and src(n.func.value) == "self.workingDirectory" and \
                     n.func.attr in ("append", "extend", "insert", "pop", "remove", "clear", "reverse", "sort"):
+                nwd += 1
                 ctx.violation("protocol/working-directory-normalised", ctx.construct(f"{QF}.FTP.{mname}", n), "self.workingDirectory is modified in place")
-    ctx.floor("protocol/working-directory-normalised", nwd, 2, "assignments of self.workingDirectory")
+    ctx.floor("protocol/working-directory-normalised", nwd, 1, "assignments of self.workingDirectory")
 
     # ================= (3) toSegments ==========================================================================
     f = ctx.func(FTPM, "toSegments")
@@ -127,9 +129,12 @@ def check(ctx):
     q = QF + ".toSegments"
     cwd, path = params(f)[:2]
     rets = [x for x in normal_exits(g)]
-    ctx.need(rets and all(isinstance(g.node(x).ast, ast.Return) and isinstance(g.node(x).ast.value, ast.Name) for x in rets), "toSegments returns a list variable")
-    segs = g.node(rets[0]).ast.value.id
-    ctx.check(all(g.node(x).ast.value.id == segs for x in rets), "normalise/returns-the-stack", q, "toSegments returns different variables on different paths")
+    stacks = sorted({src(c.func.value) for c in walk_local(f) if isinstance(c, ast.Call) and call_attr(c) == "append" and isinstance(c.func.value, ast.Name)})
+    ctx.need(len(stacks) == 1, "one segment stack (<name>.append(...)) in toSegments")
+    segs = stacks[0]
+    ctx.check(bool(rets) and all(isinstance(g.node(x).ast, ast.Return) and src(g.node(x).ast.value) == segs for x in rets), "normalise/returns-the-stack", q,
+              f"toSegments does not return the normalised stack `{segs}` on every path: "
+              f"{sorted({src(g.node(x).ast.value) if isinstance(g.node(x).ast, ast.Return) else '<falls off>' for x in rets})}")
     ds = local_defs(f, track_mutation=False).get(segs, [])
     okd = bool(ds) and all(d is not None and ((isinstance(d, ast.List) and not d.elts) or src(d) in (f"{cwd}[:]", f"list({cwd})", f"{cwd}.copy()", f"{cwd}[0:]")) for d in ds)
     ctx.check(okd, "normalise/starts-from-root-or-cwd", q, f"the segment stack does not start as [] or a copy of cwd: {[src(d) for d in ds if d is not None]}")
